@@ -218,10 +218,15 @@ class Report:
             h[str(v)] = h.get(str(v), 0) + 1
 
 
+REPLAYING = False
+
+
 def write_replay(prop_id: str, seed: int, n: int, payload: dict) -> str:
     d = VERIF / "replays"
     d.mkdir(exist_ok=True)
     tag = "" if str(common.REPO) == "/repo" else "alt-"      # runs against another checkout never overwrite /repo's replays
+    if REPLAYING:
+        tag += "re-"                                          # replaying a file never overwrites it
     path = d / f"{tag}{prop_id}-{seed}-{n}.json"
     path.write_text(json.dumps(payload, indent=1, default=str))
     return str(path.relative_to(VERIF))
@@ -255,8 +260,11 @@ def search_failing_input(prop: Prop, case: dict, rng: random.Random, budget: int
 
 def run_check(prop: Prop, tier: str, seed: int, replay: str | None = None) -> int:
     rep = Report(prop, tier, seed)
-    for old in (VERIF / "replays").glob(("" if str(common.REPO) == "/repo" else "alt-") + f"{prop.id}-{seed}-*.json"):
-        old.unlink()          # replay files always belong to the run that wrote them
+    global REPLAYING
+    REPLAYING = bool(replay)
+    if not replay:
+        for old in (VERIF / "replays").glob(("" if str(common.REPO) == "/repo" else "alt-") + f"{prop.id}-{seed}-*.json"):
+            old.unlink()          # replay files always belong to the run that wrote them
     rng = random.Random(seed * 1000003 + int(prop.id[1:]))
     audit = lean_audit(prop.id)
     if tier == "thorough" and not replay and not audit["failed"]:
